@@ -143,15 +143,17 @@ package common
 //@   ensures [establishesWF] protoBitArray != nil && bA.Bits != 0 ==> wfBits(bA)
 
 // ---------------------------------------------------------------- fixed-size byte arrays
-// One-line wrappers around bytes.Equal / copy over the whole array. Trusted: relating the element-wise
-// facts of bytes.Equal on array-backed slices to array equality needs extensionality reasoning the
-// solvers do not do unprompted.
-//@ trusted func (h Hash) Equal(anotherHash Hash) (r bool)
+// One-line wrappers around bytes.Equal / copy over the whole array. The two Equal methods are verified
+// (array values are normalised, so element-wise equality on [0,N) is array equality); IsZero through a
+// pointer and the Bytes()/BytesTo* conversions (with their uninterpreted inverses) stay trusted.
+//@ func (h Hash) Equal(anotherHash Hash) (r bool)
+//@   for C02 C19
 //@   ensures r <==> h == anotherHash
 //@ trusted func (h *Hash) IsZero() (r bool)
 //@   requires h != nil
 //@   ensures r <==> *h == Hash{}
-//@ trusted func (a Address) Equal(anotherAdd Address) (r bool)
+//@ func (a Address) Equal(anotherAdd Address) (r bool)
+//@   for C02 C12
 //@   ensures r <==> a == anotherAdd
 // the array a byte string of the right length stands for (inverse of Bytes())
 //@ spec func hashOfContent(c Content) Hash
